@@ -378,6 +378,7 @@ func c05Tokens(in c05Input) ([]tok, logql.Expr) {
 }
 
 func c05CheckPositive(r *vkit.Run, in c05Input) {
+	r.Begin("C05/positive", in)
 	toks, e := c05Tokens(in)
 	text := layout(toks, in.Style)
 	in.Text = text
